@@ -8,6 +8,7 @@ import Depccg.GlueTree
 import Depccg.GlueRun
 import Depccg.Read.Deriv
 import Depccg.Read.Prolog
+import Depccg.Read.Conll
 
 namespace Depccg
 namespace OpsMore
@@ -82,6 +83,13 @@ def dispatch (op : String) (ts : List String) : Option String :=
       | _ => "bad-op")
   | "prolog_ja" => some (match OpsXml.pBatch ts with
       | some (b, []) => encExcept encStr (prologJa b)
+      | _ => "bad-op")
+  | "conll_dec" => some (match pStr ts with
+      | some (s, []) => (match Read.decConll s with
+        | some rows => "ok " ++ toString rows.length ++ String.join (rows.map fun r =>
+            " || " ++ toString r.id ++ " " ++ encStr r.word ++ " " ++ encStr r.lemma ++ " " ++ encStr r.pos ++ " " ++ encStr r.pos2
+              ++ " " ++ toString r.head ++ " " ++ encStr r.cat)
+        | none => "none")
       | _ => "bad-op")
   | "prolog_dec" => some (match pStr ts with
       | some (s, []) => (match Read.decProlog s with
